@@ -35,9 +35,43 @@ def _read(rel):
         return f.read()
 
 
+def _desugar_all_any(text, log, unit_id):
+    """R5: `<x>.chars().all(|c| P)`  =>  block with an explicit loop; P copied verbatim.
+           `<x>.chars().any(|c| P)`  =>  likewise. The definition of Iterator::all / any."""
+    rx = re.compile(r'([A-Za-z_]\w*)\s*\.chars\(\)\s*\.(all|any)\(\s*\|(\w+)\|\s*')
+    n = 0
+    while True:
+        masked = rsparse.mask(text)
+        m = rx.search(masked)
+        if not m:
+            break
+        recv, kind, var = m.group(1), m.group(2), m.group(3)
+        open_paren = masked.index('(', m.start() + len(recv) + 1 + len('chars()') )  # the '(' of .all(
+        open_paren = masked.index('(', masked.index('.' + kind, m.start()))
+        close = rsparse.match_brace(masked, open_paren, '(', ')')
+        pred = text[m.end():close].strip()
+        flag = 'all_ok%d' % n if kind == 'all' else 'any_hit%d' % n
+        if kind == 'all':
+            block = ('({ let mut %s = true; for %s in it: %s.chars() { if !(%s) { %s = false; break; } } %s })'
+                     % (flag, var, recv, pred, flag, flag))
+        else:
+            block = ('({ let mut %s = false; for %s in it: %s.chars() { if %s { %s = true; break; } } %s })'
+                     % (flag, var, recv, pred, flag, flag))
+        log.append(dict(unit=unit_id, rule='R5', where='body', pattern='.chars().%s(|%s| P)' % (kind, var),
+                        replacement='explicit loop with flag %s' % flag, matches=[text[m.start():close + 1]]))
+        text = text[:m.start()] + block + text[close + 1:]
+        n += 1
+    if n == 0:
+        raise ExtractError('%s: R5 found no .chars().all/any(closure) to desugar' % unit_id)
+    return text
+
+
 def _apply_rewrites(text, rewrites, log, unit_id, where):
     for rw in rewrites:
         rule, pat, repl = rw[0], rw[1], rw[2]
+        if pat == '@all_any':
+            text = _desugar_all_any(text, log, unit_id)
+            continue
         count = rw[3] if len(rw) > 3 else 1
         rx = re.compile(pat, re.S)
         found = rx.findall(text)
@@ -113,8 +147,10 @@ def _name_return(sig, ret):
 
 def build_unit(unit, log):
     uid = unit['id']
-    src = _read(unit['file'])
     kind = unit.get('kind', 'fn')
+    if kind == 'raw':
+        return unit['text'], dict(id=uid, file='(contracts)', kind='raw', line=0, end_line=0, properties=[])
+    src = _read(unit['file'])
     meta = dict(id=uid, file=unit['file'], kind=kind, properties=unit.get('properties', []))
     if kind in ('struct', 'enum', 'trait'):
         it = rsparse.find_item(src, kind, unit['name'])
@@ -132,9 +168,11 @@ def build_unit(unit, log):
     sig = rsparse.strip_comments_attrs(f['sig'])
     sig = re.sub(r'\s+', ' ', sig).strip()
     sig = _apply_rewrites(sig, unit.get('sig_rw', []), log, uid, 'signature')
-    if not re.match(r'pub\b', sig):
-        sig = 'pub ' + sig          # R0: visibility widened
     sig = re.sub(r'^pub\([a-z]+\)', 'pub', sig)
+    if unit.get('vis') == '':
+        sig = re.sub(r'^pub\s+', '', sig)   # trait impl methods carry no visibility
+    elif not re.match(r'pub\b', sig):
+        sig = 'pub ' + sig          # R0: visibility widened
     sig = _name_return(sig, unit.get('ret', 'r'))
     contract = unit.get('contract', '').strip('\n')
 
